@@ -95,6 +95,25 @@ impl DynPw {
     pub fn evaluate(&self, x: f64) -> f64 {
         each!(self, p => p.evaluate(x))
     }
+    /// In-place edits through the public fields (same object, same buffer).
+    pub fn set_end(&mut self, i: usize, e: f64) {
+        each!(self, p => p.segments[i].end = e)
+    }
+    pub fn pop(&mut self) {
+        each!(self, p => { p.segments.pop(); })
+    }
+    pub fn edit(&mut self, rng: &mut Rng) {
+        let keep_positive = self.kind() != "poly"; // log forms live on v > 0: their breakpoints stay positive
+        each!(self, p => {
+            let old: Vec<f64> = p.segments.iter().map(|s| s.end).collect();
+            crate::order::edit_in_place(rng, p, true);
+            if keep_positive && p.segments.iter().any(|s| !(s.end > 0.0)) && p.segments.len() == old.len() {
+                for (s, e) in p.segments.iter_mut().zip(old) {
+                    s.end = e;
+                }
+            }
+        })
+    }
     pub fn has_mul_assign(&self) -> bool {
         !matches!(self, DynPw::Q(_))
     }
@@ -228,6 +247,19 @@ impl DynPw {
             other => other,
         }
     }
+}
+
+/// The (1-based) pieces whose OWN evaluation at x gives exactly the bits y: which piece answered, independently of how
+/// accurate a piece's evaluation is (that is C01 / C09 / C10's business, not the selection's).
+fn matching_pieces<T: Evaluate>(p: &Piecewise<T>, x: f64, y: f64) -> Vec<usize> {
+    p.segments.iter().enumerate().filter(|(_, s)| s.poly.evaluate(x).to_bits() == y.to_bits()).map(|(i, _)| i + 1).collect()
+}
+
+/// `&f + &g` / `&f - &g` under the watchdog: a merge loop that no longer terminates (or panics) is an outcome to be
+/// logged, not something that may take the harness down with it.
+fn combine_guarded(f: &Piecewise<IntOfLogPoly4>, g: &Piecewise<IntOfLogPoly4>, sub: bool) -> Result<Piecewise<IntOfLogPoly4>, String> {
+    let (f, g) = (f.clone(), g.clone());
+    guarded_timeout(30_000, move || if sub { &f - &g } else { &f + &g })
 }
 
 fn random_obj(rng: &mut Rng, q: bool) -> DynPw {
@@ -366,19 +398,39 @@ pub fn drive_session(seed: u64, sessions: usize, sink: &mut Sink) -> usize {
                     if let DynPw::Q(f) = &obj {
                         let g = match random_obj(&mut rng, true) { DynPw::Q(g) => g, _ => unreachable!() };
                         let sub = rng.bool();
-                        let r = if sub { f - &g } else { f + &g };
+                        let r = combine_guarded(f, &g, sub);
                         let gd = DynPw::Q(g);
                         let (ge, gp) = gd.state();
-                        obj = DynPw::Q(r);
-                        let (e, p) = obj.state();
-                        sink.ev(json!({"ev":"lib","op":if sub {"sub"} else {"add"},"gends":ge,"gpieces":gp,"ends":e,"pieces":p}));
+                        match r {
+                            Ok(r) => {
+                                obj = DynPw::Q(r);
+                                let (e, p) = obj.state();
+                                sink.ev(json!({"ev":"lib","op":if sub {"sub"} else {"add"},"gends":ge,"gpieces":gp,"ends":e,"pieces":p}));
+                            }
+                            Err(_) => {
+                                // no result: logged as the empty function (which no merge of non-empty operands is), then the session starts over
+                                sink.ev(json!({"ev":"lib","op":if sub {"sub"} else {"add"},"gends":ge,"gpieces":gp,"ends":[],"pieces":[]}));
+                                if hung() {
+                                    return muts;
+                                }
+                                let (e, p) = obj.state();
+                                sink.ev(json!({"ev":"lib","op":"create","kind":obj.kind(),"ends":e,"pieces":p}));
+                            }
+                        }
                         muts += 1;
                     }
                 }
                 8 => {
                     let x = arg_for(&mut rng, &obj, &ends);
                     let y = obj.evaluate(x);
-                    sink.ev(json!({"ev":"lib","op":"eval","x":jb(x),"y":jb(y)}));
+                    let m: Vec<usize> = each!(&obj, p => matching_pieces(p, x, y));
+                    sink.ev(json!({"ev":"lib","op":"eval","x":jb(x),"y":jb(y),"match":m}));
+                }
+                11 => {
+                    // the caller edits the object in place (public fields), between any two operations
+                    obj.edit(&mut rng);
+                    let (e, p) = obj.state();
+                    sink.ev(json!({"ev":"lib","op":"edit","ends":e,"pieces":p}));
                 }
                 9 => {
                     // a handle: new, a few queries, drop (the object cannot be touched meanwhile: the borrow)
@@ -391,7 +443,8 @@ pub fn drive_session(seed: u64, sessions: usize, sink: &mut Sink) -> usize {
                                 let x = arg_for(&mut rng, &obj, &ends);
                                 let y = ev.evaluate(x);
                                 let st = ev.verif_state();
-                                sink.ev(json!({"ev":"lib","op":"query","x":jb(x),"y":jb(y),"off":st.0,"tail":st.1,"last":jbits(st.2)}));
+                                let m = matching_pieces($p, x, y);
+                                sink.ev(json!({"ev":"lib","op":"query","x":jb(x),"y":jb(y),"match":m,"off":st.0,"tail":st.1,"last":jbits(st.2)}));
                             }
                         }};
                     }
@@ -405,7 +458,8 @@ pub fn drive_session(seed: u64, sessions: usize, sink: &mut Sink) -> usize {
                     sink.ev(json!({"ev":"lib","op":"vstart"}));
                     let ys: Vec<f64> = each!(&obj, p => p.evaluate_v(xs.clone()).collect());
                     for (x, y) in xs.iter().zip(ys.iter()) {
-                        sink.ev(json!({"ev":"lib","op":"vnext","x":jb(*x),"y":jb(*y)}));
+                        let m: Vec<usize> = each!(&obj, p => matching_pieces(p, *x, *y));
+                        sink.ev(json!({"ev":"lib","op":"vnext","x":jb(*x),"y":jb(*y),"match":m}));
                     }
                     sink.ev(json!({"ev":"lib","op":"vend"}));
                 }
@@ -560,7 +614,7 @@ fn run_readonly<T: Evaluate>(p: &Piecewise<T>, ops: &[&Value], sx: f64, sink: &m
             "eval" => {
                 let x = rat(&o["x"], sx);
                 let y = p.evaluate(x);
-                sink.ev(json!({"ev":"lib","op":"eval","x":jb(x),"y":jb(y)}));
+                sink.ev(json!({"ev":"lib","op":"eval","x":jb(x),"y":jb(y),"match":matching_pieces(p, x, y)}));
             }
             "new" => {
                 handle = Some(PiecewiseEvaluator::new(&p.segments));
@@ -571,7 +625,7 @@ fn run_readonly<T: Evaluate>(p: &Piecewise<T>, ops: &[&Value], sx: f64, sink: &m
                 let ev = handle.as_mut().expect("script queries without a handle");
                 let y = ev.evaluate(x);
                 let st = ev.verif_state();
-                sink.ev(json!({"ev":"lib","op":"query","x":jb(x),"y":jb(y),"off":st.0,"tail":st.1,"last":jbits(st.2)}));
+                sink.ev(json!({"ev":"lib","op":"query","x":jb(x),"y":jb(y),"match":matching_pieces(p, x, y),"off":st.0,"tail":st.1,"last":jbits(st.2)}));
             }
             "drop" => {
                 handle = None;
@@ -587,7 +641,7 @@ fn run_readonly<T: Evaluate>(p: &Piecewise<T>, ops: &[&Value], sx: f64, sink: &m
                 let x = rat(&o["x"], sx);
                 feed.borrow_mut().push_back(x);
                 let y = batch.as_mut().expect("script feeds without a batch").next().expect("evaluate_v yielded nothing for an input");
-                sink.ev(json!({"ev":"lib","op":"vnext","x":jb(x),"y":jb(y)}));
+                sink.ev(json!({"ev":"lib","op":"vnext","x":jb(x),"y":jb(y),"match":matching_pieces(p, x, y)}));
             }
             "vend" => {
                 batch = None;
@@ -639,6 +693,16 @@ pub fn replay_lib(lines: &[Value], embeddings: &[(f64, f64)], sink: &mut Sink) -
                         let (e, p) = obj.state();
                         sink.ev(json!({"ev":"lib","op":"derive","ends":e,"pieces":p}));
                     }
+                    "editend" => {
+                        obj.set_end(o["i"].as_u64().unwrap() as usize - 1, rat(&o["e"], sx));
+                        let (e, p) = obj.state();
+                        sink.ev(json!({"ev":"lib","op":"edit","ends":e,"pieces":p}));
+                    }
+                    "pop" => {
+                        obj.pop();
+                        let (e, p) = obj.state();
+                        sink.ev(json!({"ev":"lib","op":"edit","ends":e,"pieces":p}));
+                    }
                     "integrate" => {
                         let k = Knot { x: rat(&o["kx"], sx), y: rat(&o["ky"], sy) };
                         obj = obj.integrate(k);
@@ -648,13 +712,26 @@ pub fn replay_lib(lines: &[Value], embeddings: &[(f64, f64)], sink: &mut Sink) -
                     name @ ("add" | "sub") => {
                         let g = build_obj(kind, &ends_of_v(&o["g"]["ends"]), &pieces_of_v(&o["g"]["pieces"]));
                         let (ge, gp) = g.state();
-                        obj = match (&obj, &g) {
-                            (DynPw::Q(f), DynPw::Q(g)) => DynPw::Q(if name == "sub" { f - g } else { f + g }),
+                        let r = match (&obj, &g) {
+                            (DynPw::Q(f), DynPw::Q(g)) => combine_guarded(f, g, name == "sub"),
                             // the library offers + and - for no polynomial piece type: the step is not replayable
                             _ => break,
                         };
-                        let (e, p) = obj.state();
-                        sink.ev(json!({"ev":"lib","op":name,"gends":ge,"gpieces":gp,"ends":e,"pieces":p}));
+                        match r {
+                            Ok(r) => {
+                                obj = DynPw::Q(r);
+                                let (e, p) = obj.state();
+                                sink.ev(json!({"ev":"lib","op":name,"gends":ge,"gpieces":gp,"ends":e,"pieces":p}));
+                            }
+                            Err(_) => {
+                                sink.ev(json!({"ev":"lib","op":name,"gends":ge,"gpieces":gp,"ends":[],"pieces":[]}));
+                                if hung() {
+                                    return n + 1;
+                                }
+                                n += 1;
+                                break; // the rest of this script has no object to run on
+                            }
+                        }
                     }
                     _ => {
                         let mut j = i;
